@@ -27,7 +27,7 @@ UNSUPPORTED = ["single-literal-pre", "top-not-pre", "top-or-pre", "imply", "exis
                "undeclared-neg-pre", "undeclared-neg-eff", "wrong-arity-pre", "wrong-arity-eff", "repeated-arg-pre",
                "repeated-arg-eff", "repeated-arg-fluent", "nested-and-effect", "oneof", "non-and-effect", "multi-var-forall-pre",
                "multi-var-forall-eff", "forall-literal-body-pre", "forall-no-when-eff", "when-in-when", "constant-equality",
-               "nested-forall-pre", "undeclared-function", "forall-in-when-condition"]
+               "nested-forall-pre", "undeclared-function", "forall-in-when-condition", "forall-and-body-eff"]
 
 
 def some_pred(rng, w, arity=None):
@@ -171,7 +171,7 @@ def insert_unsupported(rng, w, act, form):
         else:
             act["eff"] = ["and", ["forall", ["?u", "?v", "-", ty], ["when", ["and", [p, "?u", "?v"]], ["not", [p, "?v", "?u"]]]]] + \
                          [e for e in act["eff"][1:] if isinstance(e, list) and e[0] not in (p, "not", "when", "forall")]
-    elif form in ("forall-literal-body-pre", "forall-no-when-eff", "nested-forall-pre"):
+    elif form in ("forall-literal-body-pre", "forall-no-when-eff", "nested-forall-pre", "forall-and-body-eff"):
         tys = [t for t in w.type_names() if w.things_of(t, False) and not any(w.subtype(ct, t) for ct in w.constants.values())]
         cands = [(p, s) for p, s in w.preds.items() if len(s) == 1 and any(w.subtype(t, s[0][1]) for t in tys)]
         if not cands:
@@ -182,6 +182,12 @@ def insert_unsupported(rng, w, act, form):
             act["pre"] = act["pre"] + [["forall", ["?u", "-", ty], [p, "?u"]]]
         elif form == "nested-forall-pre":
             act["pre"] = act["pre"] + [["forall", ["?u", "-", ty], ["and", ["forall", ["?v", "-", ty], ["or", [p, "?u"], ["not", [p, "?v"]]]]]]]
+        elif form == "forall-and-body-eff":
+            # an unconditional universal effect with a two-literal body: must not be read as (when first second)
+            z = some_pred(rng, w, 0)
+            second = [z] if z else [p, "?u"]
+            body = ["and", [p, "?u"], second] if rng.random() < 0.5 else ["and", second, [p, "?u"]]
+            act["eff"] = ["and", ["forall", ["?u", "-", ty], body]] + [e for e in act["eff"][1:] if isinstance(e, list) and e[0] not in (p, z, "not", "when", "forall")]
         else:
             act["eff"] = ["and", ["forall", ["?u", "-", ty], [p, "?u"]]] + [e for e in act["eff"][1:] if isinstance(e, list) and e[0] not in (p, "not", "when", "forall")]
     elif form == "when-in-when":
